@@ -6,7 +6,6 @@ From PV Require Import Thrift.Interp Proofs.VarintP Proofs.TablesP Proofs.PrimP 
 From Coq Require Import ZifyN ZifyNat ZifyBool.
 Open Scope Z_scope.
 
-Definition blen (s : rst) : nat := length (rbuf s).
 
 (* outcome is fine: Ok with a buffer at least [k] bytes shorter, or a genuine error *)
 Definition good {A} (o : res (A * rst)) (s : rst) (k : nat) : Prop :=
